@@ -108,7 +108,7 @@ func (P) Exec(line string) string {
 		if len(f) != 7 {
 			return "bad-op"
 		}
-		return execQ(f[2:])
+		return execQ(f[2:], nil)
 	case "par":
 		// independent chain instances run concurrently, one goroutine each, released together
 		// and staggered; every instance must answer exactly as it would alone.
@@ -137,22 +137,33 @@ func (P) Exec(line string) string {
 					outs[i] = "bad-op"
 					return
 				}
-				outs[i] = execQ(ff)
+				outs[i] = execQ(ff, nil)
 			}(i, sub)
 		}
 		close(start)
 		wg.Wait()
 		return strings.Join(outs, "|")
-	case "seq":
-		// successive chain instances ("lives") over the same data with different configuration
+	case "seq", "seqp":
+		// successive chain instances ("lives"): seq = over the same data with different
+		// configuration; seqp = ONE *chaincfg.Params object (created once from the first sub; all subs
+		// carry the same window/threshold/deployments) reused by every successive instance, as a
+		// process that re-creates its BlockChain does. The object must be unchanged afterwards.
 		if len(f) != 3 {
 			return "bad-op"
 		}
 		var outs []string
+		var shared *chaincfg.Params
 		for _, sub := range strings.Split(f[2], "|") {
 			ff := strings.Split(sub, "/")
 			if len(ff) != 5 {
 				return "bad-op"
+			}
+			if f[1] == "seqp" && shared == nil {
+				d := parseDeps(ff[2])
+				if len(d) != chaincfg.DefinedDeployments {
+					return "bad-op"
+				}
+				shared = newParams(uint32(i64(ff[0])), uint32(i64(ff[1])), d)
 			}
 			o := func() (o string) {
 				defer func() {
@@ -160,7 +171,7 @@ func (P) Exec(line string) string {
 						o = "panic"
 					}
 				}()
-				return execQ(ff)
+				return execQ(ff, shared)
 			}()
 			outs = append(outs, o)
 		}
@@ -205,8 +216,20 @@ func (P) Exec(line string) string {
 	return "bad-op"
 }
 
-// execQ runs one chain instance: f = window, threshold, deployments, tree, queries.
-func execQ(f []string) string {
+// paramsSnapshot renders everything of a Params value that the version bits code reads.
+func paramsSnapshot(p *chaincfg.Params) string {
+	var sb strings.Builder
+	fmt.Fprintf(&sb, "%d/%d", p.MinerConfirmationWindow, p.RuleChangeActivationThreshold)
+	for i := range p.Deployments {
+		fmt.Fprintf(&sb, "|%v", depFact(&p.Deployments[i]))
+	}
+	return sb.String()
+}
+
+// execQ runs one chain instance: f = window, threshold, deployments, tree, queries. With
+// shared != nil that Params object is used (and re-synchronised to this instance) instead of a
+// fresh one.
+func execQ(f []string, shared *chaincfg.Params) string {
 	f = append([]string{"C14", "q"}, f...)
 	window, threshold := uint32(i64(f[2])), uint32(i64(f[3]))
 	deps := parseDeps(f[4])
@@ -236,14 +259,20 @@ func execQ(f []string) string {
 		}
 		specs = append(specs, nodeSpec{par, int32(uint32(v)), i64(pvt[2]), l})
 	}
-	build := func() *blockchain.VerifC14Chain {
-		c := blockchain.VerifC14New(newParams(window, threshold, deps))
+	buildWith := func(p *chaincfg.Params) *blockchain.VerifC14Chain {
+		c := blockchain.VerifC14New(p)
 		for _, ns := range specs {
 			c.AddNode(ns.parent, ns.version, ns.ts)
 		}
 		return c
 	}
-	c := build()
+	build := func() *blockchain.VerifC14Chain { return buildWith(newParams(window, threshold, deps)) }
+	params := shared
+	if params == nil {
+		params = newParams(window, threshold, deps)
+	}
+	before := paramsSnapshot(params)
+	c := buildWith(params)
 	n := len(specs)
 	var out []string
 	for _, q := range strings.Split(f[6], ",") {
@@ -297,6 +326,77 @@ func execQ(f []string) string {
 		case 'w':
 			st, err := c.WarningStateAt(int(node), uint32(arg))
 			out = append(out, stStr(st, err))
+		case 'H': // one header object reused for four calls; it must come back unchanged
+			if node < 0 || arg >= int64(len(deps)) {
+				return "bad-op"
+			}
+			hdr := c.HeaderOf(int(node))
+			keep := hdr
+			d := &params.Deployments[arg]
+			t1, e1 := c.Chain().PastMedianTime(&hdr)
+			a, aerr := d.DeploymentStarter.HasStarted(&hdr)
+			b, berr := d.DeploymentEnder.HasEnded(&hdr)
+			t2, e2 := c.Chain().PastMedianTime(&hdr)
+			ch := func(v bool, err error) string {
+				switch {
+				case err != nil:
+					return "e"
+				case v:
+					return "1"
+				}
+				return "0"
+			}
+			tok := "err"
+			if e1 == nil {
+				tok = strconv.FormatInt(t1.Unix(), 10)
+			}
+			tok += "/" + ch(a, aerr) + ch(b, berr)
+			if (e1 == nil) != (e2 == nil) || (e1 == nil && !t1.Equal(t2)) {
+				tok += "/UNSTABLE"
+			}
+			if hdr != keep {
+				tok += "/INPUT-MUTATED"
+			}
+			out = append(out, tok)
+		case 'P': // the exported, lock-taking methods called from 6 goroutines at once on one tip
+			if window == 0 && node >= 0 {
+				// a panic inside a goroutine cannot be recovered here and would leave chainLock held;
+				// the single-threaded ops cover this excluded point
+				panic("window 0")
+			}
+			c.SetTip(int(node))
+			res := make([]string, 6)
+			var wg sync.WaitGroup
+			for k := 0; k < 6; k++ {
+				wg.Add(1)
+				go func(k int) {
+					defer wg.Done()
+					switch k / 2 {
+					case 0:
+						st, err := c.Chain().ThresholdState(uint32(arg))
+						res[k] = stStr(st, err)
+					case 1:
+						ok, err := c.Chain().IsDeploymentActive(uint32(arg))
+						switch {
+						case err != nil:
+							res[k] = "err"
+						case ok:
+							res[k] = "1"
+						default:
+							res[k] = "0"
+						}
+					default:
+						v, err := c.Chain().CalcNextBlockVersion()
+						if err != nil {
+							res[k] = "err"
+						} else {
+							res[k] = fmt.Sprintf("%x", uint32(v))
+						}
+					}
+				}(k)
+			}
+			wg.Wait()
+			out = append(out, strings.Join(res, "/"))
 		case 'm': // exported BlockChain.PastMedianTime (the BlockClock)
 			if node < 0 {
 				return "bad-op"
@@ -384,6 +484,9 @@ func execQ(f []string) string {
 		default:
 			return "bad-op"
 		}
+	}
+	if paramsSnapshot(params) != before {
+		out = append(out, "PARAMS-MUTATED") // the caller's Params object must come back unchanged
 	}
 	return strings.Join(out, ",")
 }
